@@ -65,7 +65,7 @@ SRC_TYPED = (
 ELEMS_TYPED = [1, 1.0, True, False, 0]  # equal and equally hashed for Python (1 == 1.0 == True, 0 == False), distinct calls for memento
 
 
-def _run(n, e0, e1, e2, e3, pre, raise_first, prefix, api, store, ELEMS=ELEMS, SRC=SRC, failing=3):
+def _run(n, e0, e1, e2, e3, pre, raise_first, prefix, api, store, ELEMS=ELEMS, SRC=SRC, failing=3, purge=0, one_shot=False):
     n = pick(n, 5) if not isinstance(n, int) else n
     es = [pick(e, len(ELEMS)) for e in [e0, e1, e2, e3][:n]]
     xs = [ELEMS[e] for e in es]
@@ -95,6 +95,13 @@ def _run(n, e0, e1, e2, e3, pre, raise_first, prefix, api, store, ELEMS=ELEMS, S
                     _outcome(lambda: f(5, x))
                 if pre_xs:
                     cover("some-memoized-before")
+                cache = getattr(sb.storage(), "_memory_cache", None)
+                if purge and cache is not None and pre_xs:
+                    # part of what was memoized beforehand is only on disk any more: purge == 1 the first, 2 the last, 3 all of them
+                    cover("memoized-on-disk-only-next-to-cached-ones")
+                    victims = {1: pre_xs[:1], 2: pre_xs[-1:], 3: pre_xs}[purge]
+                    for x in victims:
+                        cache.forget_call(f.fn_reference().with_args(5, x).fn_reference_with_arg_hash())
                 n0 = len(prog.trace)
                 if mode == "batch":
                     if api == "call_batch":
@@ -105,7 +112,9 @@ def _run(n, e0, e1, e2, e3, pre, raise_first, prefix, api, store, ELEMS=ELEMS, S
                         if out[0] == "value":
                             out = ("value", [_norm(r) for r in out[1]])
                     else:
-                        out = _outcome(lambda: f.partial(p=5).map_over_range(x=list(xs)))
+                        if one_shot:
+                            cover("one-shot-iterable-range")
+                        out = _outcome(lambda: f.partial(p=5).map_over_range(x=(iter(list(xs)) if one_shot else list(xs))))
                         if out[0] == "value":
                             out = ("value", {k: _norm(v) for k, v in out[1].items()})
                 else:
@@ -211,3 +220,20 @@ def batch_recursive(e0: int, e1: int, e2: int, e3: int, pre: int, raise_first: b
         # (cover label: element 2 before element 1)
         pass
     _run(n, e0, e1, e2, e3, pre, raise_first, prefix, api, store, SRC=SRC_REC)
+
+
+@obligation(
+    "C15.batch_cache_mix",
+    covers=("memoized-on-disk-only-next-to-cached-ones", "one-shot-iterable-range", "some-memoized-before"),
+    split={"n": [2, 3], "api": ["call_batch", "map_over_range"], "purge": [1, 2, 3]},
+    bounds="batches of length 2..3 over {1, 2, failing 3} on the filesystem back-end WITH a memory cache, where of the elements memoized "
+           "beforehand the first / the last / all have been dropped from the cache (so the bulk look-up mixes cache hits, disk hits and "
+           "misses in every order); map_over_range also with a one-shot iterator as the range; oracle = element-wise evaluation",
+    variables="choice: elements, pre-memoized subset, purge pattern, raise_first, prefix / one-shot bit",
+    budget_s={"quick": 170, "thorough": 600},
+    choice_vars=7,
+)
+def batch_cache_mix(e0: int, e1: int, e2: int, e3: int, pre: int, raise_first: bool, prefix: bool, api: str, n: int, purge: int):
+    # for map_over_range the 'prefix' bit selects a one-shot iterator as the range
+    one_shot = (True if prefix else False) if api == "map_over_range" else False
+    _run(n, e0, e1, e2, e3, pre, raise_first, prefix if api == "call_batch" else False, api, "fs+cache:1", purge=purge, one_shot=one_shot)
